@@ -123,6 +123,16 @@ def run_check(prop: str, tier: str, seed: int) -> int:
     specs = mod.shards(tier, seed)
     for i, s in enumerate(specs):
         s.setdefault("name", f"shard{i}")
+    # transport dimension: the shards a check names in SCTP_CLONES run a second time with the node listening and
+    # dialling over (a stand-in for) SCTP, which takes the node through its SCTP branches
+    clones = getattr(mod, "SCTP_CLONES", {}).get(tier, [])
+    for s in list(specs):
+        if s["name"] in clones:
+            c = dict(s)
+            c["name"] = s["name"] + "@sctp"
+            c["transport"] = "sctp"
+            specs.append(c)
+    for s in specs:
         s["tier"] = tier
         s["seed"] = seed
     default_timeout = getattr(mod, "TIMEOUT", {"quick": 600, "thorough": 3600})[tier]
